@@ -12,7 +12,7 @@ def _hm(op, name, what, cap=2):
               desc='HandleManager::%s, one call from an arbitrary INV table with interference of other threads before the acquisition and after the release of handlesMutex: '
                    'handles/objects only touched under handlesMutex, one critical section, released on every path, no re-acquisition; %s' % (name, what),
               bounds='handle table <= %d entries at entry (thorough: 3) + entries added by the environment, 4 slots, 8 object addresses; counter below 2^64-16' % cap,
-              thorough={'defines': {'VSTL_CAP': 3}, 'unwind': 5}, timeout=300)
+              thorough={'defines': {'VSTL_CAP': 3}, 'unwind': 5, 'timeout': 900}, timeout=300)
 
 
 _HM_OPS = [
@@ -41,7 +41,7 @@ def _sm(op, name, what, nsess=3):
                    'and after the release of sessionsMutex: the sessions vector only touched under sessionsMutex, one critical section, nested Token::tokenMutex -> SecureDataManager::dataMgrMutex '
                    'in the written order, everything released; %s' % (name, what),
               bounds='session table <= %d entries (thorough: 4) including sessions opened by the environment, 2 tokens; Session::resetOp cut' % nsess,
-              thorough={'defines': {'NSESS': 4}, 'unwind': 6}, timeout=300)
+              thorough={'defines': {'NSESS': 4}, 'unwind': 6, 'timeout': 900}, timeout=300)
 
 
 _SM_OPS = [
@@ -56,19 +56,99 @@ _SM_OPS = [
 ]
 
 
+SOS = ['object_store/SessionObjectStore.cpp', 'object_store/SessionObject.cpp', 'object_store/OSAttribute.cpp', 'data_mgr/ByteString.cpp']
+
+
+def _sos(op, name, what, cap=3, tiers=('quick', 'thorough')):
+    return Ob('lock_sos_' + name, 'C18/lock_ind.cpp', SOS, defines={'CLS': 3, 'OP': op, 'VSTL_CAP': cap, 'BS_CAP': 4, 'LM_N': cap + 2, 'VSTL_ACCESS_HOOK': 1}, unwind=cap + 2,
+              unwind_rules=LM_RULES, caps='C18/caps.h', tiers=tiers,
+              desc='SessionObjectStore::%s, one call from an arbitrary store (objects subset of allObjects) with interference of other threads (they destroy / create session objects of their own) '
+                   'around the critical section: objects / allObjects only touched under storeMutex, SessionObject::attributes only under that object\'s objectMutex, nesting storeMutex -> objectMutex, '
+                   'one critical section, everything released; %s' % (name, what),
+              bounds='%d session objects with <= 1 attribute + 1 object of another thread, sets of capacity %d (thorough: 4)' % (cap - 1, cap),
+              thorough={'defines': {'VSTL_CAP': 4, 'LM_N': 6}, 'unwind': 6, 'timeout': 900, 'mem': 16}, timeout=300)
+
+
+_SOS_OPS = [
+    (0, 'createObject', 'the new object is in both sets at return and stays there'),
+    (1, 'deleteObject', 'result == membership at lock time; removal and invalidation in the same critical section'),
+    (2, 'sessionClosed', 'exactly the objects of the session (at lock time) are removed and invalidated'),
+    (3, 'allSessionsClosed', 'exactly the objects of the slot (at lock time) are removed and invalidated'),
+    (4, 'tokenLoggedOut', 'exactly the private objects of the slot (at lock time) are removed and invalidated'),
+    (5, 'getObjects', 'the answer is the content at lock time'),
+    (6, 'getObjectsSlot', 'the answer is the content for the slot at lock time'),
+    (7, 'clearStore', 'both sets emptied and the objects destroyed inside one critical section'),
+    (10, 'lifecycle', 'constructor obtains the mutex and holds nothing; destructor recycles it and holds nothing'),
+]
+
+
+TOK = ['slot_mgr/Token.cpp', 'data_mgr/SecureDataManager.cpp', 'data_mgr/ByteString.cpp', 'crypto/SymmetricAlgorithm.cpp', 'crypto/SymmetricKey.cpp', 'crypto/AESKey.cpp']
+TOK_STUBS = {'_ZN17SecureDataManager5loginERK10ByteStringS2_': 'stub_sdm_login', '_ZN17SecureDataManager14reAuthenticateERK10ByteStringS2_': 'stub_sdm_reauth'}
+
+
+def _tok(op, name, what):
+    crypt = op in (7, 8)
+    return Ob('lock_tok_' + name, 'C18/lock_ind.cpp', TOK, defines={'CLS': 4, 'OP': op, 'BS_CAP': 40 if crypt else 4, 'KEYLEN': 32 if crypt else 4, 'LM_N': 2, 'VSTL_ACCESS_HOOK': 1},
+              unwind=42 if crypt else 6, unwind_rules=[(r'^harness', 40), (r'Mutex|lm_', 4)], stubs=TOK_STUBS, caps='C18/caps.h',
+              desc='Token::%s, one call from an arbitrary login state with interference of other threads (they log in / out on the same token) before the acquisition and after the release of tokenMutex: '
+                   'login flags, masked key, PIN blobs and the token\'s single AES instance / RNG only used under tokenMutex, dataMgrMutex nested inside it, one critical section, everything released; %s' % (name, what),
+              bounds='one token; PIN <= 2 bytes; PBE/AES internals of SecureDataManager::login / reAuthenticate cut to a lock-faithful contract; AES = monitor with symbolic results',
+              timeout=300)
+
+
+_TOK_OPS = [
+    (0, 'isValid', 'answer under the lock'),
+    (1, 'isSOLoggedIn', 'answer is the flag at lock time'),
+    (2, 'isUserLoggedIn', 'answer is the flag at lock time'),
+    (3, 'loginSO', 'nobody-logged-in test, PIN check and flag update in one critical section: result and state at release explained by the state at lock time'),
+    (4, 'loginUser', 'nobody-logged-in test, PIN check and flag update in one critical section'),
+    (5, 'reAuthenticate', 'never changes who is logged in; result explained by the state at lock time'),
+    (6, 'logout', 'flags cleared and key wiped under tokenMutex -> dataMgrMutex'),
+    (7, 'decrypt', 'login test, key unmasking (dataMgrMutex) and AES use inside one tokenMutex section'),
+    (8, 'encrypt', 'login test, key unmasking (dataMgrMutex), RNG and AES use inside one tokenMutex section'),
+]
+
+
+def _smr(op, name, what):
+    return Ob('lock_smr_' + name, 'C18/lock_ind.cpp', ['data_mgr/SecureMemoryRegistry.cpp'], defines={'CLS': 5, 'OP': op, 'VSTL_CAP': 3, 'LM_N': 1, 'VSTL_ACCESS_HOOK': 1}, unwind=5,
+              unwind_rules=[(r'^harness', 40), (r'Mutex|lm_', 4)], caps='C18/caps.h',
+              desc='SecureMemoryRegistry::%s, one call from an arbitrary registry with interference of other threads (they register / unregister blocks of their own): registry only touched under its mutex, '
+                   'one critical section, released; %s' % (name, what),
+              bounds='registry <= 3 entries, blocks <= 2 bytes', timeout=300)
+
+
+_SMR_OPS = [(0, 'add', 'the block is registered with the given size'), (1, 'remove', 'returns the size registered at lock time; entry gone'), (2, 'wipe', 'blocks registered at lock time are zeroed under the lock')]
+
+
 def register(reg):
-    obs = [_hm(*o) for o in _HM_OPS] + [_sm(*o) for o in _SM_OPS]
+    obs = [_hm(*o) for o in _HM_OPS] + [_sm(*o) for o in _SM_OPS] + [_sos(*o) for o in _SOS_OPS] + [_tok(*o) for o in _TOK_OPS] + [_smr(*o) for o in _SMR_OPS]
+    # KNOWN: SessionObjectStore::getObjectCount() reads objects.size() without storeMutex (L9001).  In no tier: run with --any-tier --only lock_sos_getObjectCount
+    obs.append(_sos(8, 'getObjectCount', 'KNOWN unguarded read of objects.size()', tiers=()))
     reg.OBLIGATIONS['C18'] = obs
+    # C03: the SessionManager obligations also carry the functional contracts (exactly the caller's session / every session of the slot goes, the other token's table entries keep their place, logout exactly on the last close)
+    reg.OBLIGATIONS['C03'] = reg.OBLIGATIONS['C03'] + [o for o in obs if o.name in ('lock_sm_openSession', 'lock_sm_closeSession', 'lock_sm_closeAllSessions')]
+    # Token PIN functions (real Token::setUserPIN / setSOPIN / initUserPIN, harness/C04/token_pin.cpp): the whole operation is ONE critical section of tokenMutex
+    reg.OBLIGATIONS['C18'] = reg.OBLIGATIONS['C18'] + [o for o in reg.OBLIGATIONS['C04'] if o.name in ('tokpin_setuserpin', 'tokpin_setsopin', 'tokpin_inituserpin')]
     reg.META['C18'] = dict(
-        technique='lock-discipline + rely/guarantee interference, one inductive step per public method, decided by CBMC over the real sources',
-        claim='for every pre-state within the capacities and every argument: (a) each access to a shared table happens under the mutex that guards it, '
-              '(b) every method releases what it took on every path, (c) no mutex is re-acquired while held, (d) nested acquisitions follow one written global order, '
-              '(e) the sequential contract of the return value holds although other threads change the guarded state arbitrarily (admissibly) whenever the mutex is not held',
-        outside='real thread schedules and preemption inside a critical section; linearizability of whole C_* calls that are composed of several critical sections '
-                '(e.g. C_CloseSession = HandleManager::getSession + SessionManager::closeSession + notifications); memory-model effects (visibility/reordering without a lock); '
-                'that the OS / application mutex callbacks really exclude; the SQLite backend; accesses through raw vector iterators after begin() and scalar fields are only checked '
-                'through the interference contract, not through the access hook; constructors/destructors are exclusive by contract (C_Initialize/C_Finalize)',
-        assumptions=['mutexes are ghost counters (harness/C18/lock_model.h); other threads are modelled as one arbitrary admissible step on the guarded state at every acquisition from depth 0 and every release to depth 0',
-                     'representation invariants of the managers (C11 / C03) hold at entry and are preserved by the environment steps (asserted)',
-                     'written global lock order: sessionsMutex < storeMutex < Token::tokenMutex < OSToken::tokenMutex < objectMutex < dataMgrMutex < handlesMutex'],
-        note='C18 as stated (all schedules of 2..16 threads) is not decided; this is the sequential discipline that makes each manager method atomic')
+        technique='lock discipline + rely/guarantee interference, one inductive step per public method (P-IND), decided by CBMC over the real sources; '
+                  'container models report every access (vstl_access hook), the mutex model keeps ghost hold counters, checks recursion / order / balance and lets the environment '
+                  'run at every acquisition from depth 0 and every release to depth 0',
+        claim='for HandleManager, SessionManager, SessionObjectStore (+ SessionObject attribute maps), Token + SecureDataManager and SecureMemoryRegistry, for every pre-state within the capacities and every argument: '
+              '(a) each access to a shared table happens under the mutex that guards it (L9001), (b) every method releases what it took on every path and never unlocks what it does not hold (L9003), '
+              '(c) no mutex is re-acquired while held (L9002: self-deadlock on non-recursive OS mutexes), (d) nested acquisitions follow one written global order (L9004; the nestings sessionsMutex -> tokenMutex -> dataMgrMutex and '
+              'storeMutex -> objectMutex are witnessed), (e) each method is ONE critical section over its table and the sequential contract of its return value / of the state at release holds although other threads change the '
+              'guarded state arbitrarily (admissibly) whenever the mutex is not held - which refutes values read before the lock or after the unlock (e.g. a counter re-read for the return value) and check-then-act splits',
+        outside='real thread schedules and preemption; linearizability of whole C_* calls that are composed of several critical sections (e.g. C_CloseSession = HandleManager::getSession + SessionManager::closeSession + '
+                'two notifications; every SoftHSM.cpp wrapper uses the Session* after sessionsMutex / handlesMutex were released and relies on "a thread uses its own session"); memory-model effects; that the OS / application '
+                'mutex callbacks exclude (MutexFactory.cpp / osmutex.cpp are replaced by the ghost model); OSToken / ObjectFile / Directory / Generation / SlotManager / SoftHSM.cpp (no obligations yet); the SQLite backend; '
+                'scalar fields and elements reached through raw vector iterators are not seen by the access hook, only by the interference contracts; constructors / destructors and the lazily created singletons '
+                '(MutexFactory::i, SecureMemoryRegistry::i, CryptoFactory::i: unlocked check-then-create) are exclusive by contract (C_Initialize / C_Finalize); '
+                'PBE/AES internals of SecureDataManager::login / reAuthenticate (cut to a lock-faithful contract); Session::resetOp (cut)',
+        assumptions=['mutexes are ghost counters (harness/C18/lock_model.h); other threads are one arbitrary admissible step on the guarded state at every acquisition from depth 0 and every release to depth 0 '
+                     '(environment steps written per class in harness/C18/lock_ind.cpp; they preserve the representation invariant - asserted)',
+                     'what the calling thread owns (its session, the object it passes in, the block it registers) is not removed by other threads: C18 quantifies over threads that use different sessions',
+                     'representation invariants of the managers (C11 / C03) at entry',
+                     'written global lock order: sessionsMutex < storeMutex < Token::tokenMutex < OSToken::tokenMutex < objectMutex < dataMgrMutex < handlesMutex < SecMemRegistryMutex',
+                     'SecureDataManager state (login flags, masked key, PIN blobs, AES instance) is guarded by the owning Token::tokenMutex: SecureDataManager itself reads the flags and maskedKey.size() outside dataMgrMutex'],
+        note='C18 as stated (all schedules of 2..16 threads, results explained by a sequential order) is NOT decided; this is the sequential discipline that makes each manager method atomic. '
+             'KNOWN: SessionObjectStore::getObjectCount() reads objects.size() without storeMutex (obligation lock_sos_getObjectCount, in no tier; only the unit test calls it)')
